@@ -41,8 +41,8 @@ theorem bitsToNat_foldl (bs : Bits) (acc : Nat) :
 
 theorem bitsToNat_cons (b : Bool) (bs : Bits) :
     bitsToNat (b :: bs) = b.toNat * 2 ^ bs.length + bitsToNat bs := by
-  simp only [bitsToNat, List.foldl_cons]
-  rw [bitsToNat_foldl]
+  show List.foldl _ 0 (b :: bs) = _
+  rw [List.foldl_cons, bitsToNat_foldl]
   simp
 
 theorem bitsToNat_append (a b : Bits) : bitsToNat (a ++ b) = bitsToNat a * 2 ^ b.length + bitsToNat b := by
@@ -73,8 +73,7 @@ theorem bitsToNat_natToBits_mod (w v : Nat) : bitsToNat (natToBits w v) = v % 2 
       · simp [h]
     rw [hb, Nat.pow_succ]
     have hpos : 0 < 2 ^ w := Nat.pos_of_ne_zero (by simp)
-    rw [Nat.mod_mul_eq_mul_mod' _ _ _ (by omega) |>.symm ▸ rfl] <;> skip
-    -- v % (2^w * 2) = (v / 2^w % 2) * 2^w + v % 2^w
+    -- v % (2^w * 2) = v % 2^w + 2^w * (v / 2^w % 2)
     rw [Nat.mod_mul]
     rw [Nat.add_comm, Nat.mul_comm]
 
@@ -133,7 +132,7 @@ theorem allZero_iff (bs : Bits) : allZero bs = true ↔ bitsToNat bs = 0 := by
     simp only [allZero, List.all_cons] at ih ⊢
     cases b
     · simpa using ih
-    · simp; omega
+    · simp
 
 /-! ## slices of append chains -/
 
@@ -144,7 +143,7 @@ theorem allZero_iff (bs : Bits) : allZero bs = true ↔ bitsToNat bs = 0 := by
 theorem slice_append_right (a b : Bits) (off w : Nat) (h : a.length ≤ off) :
     slice (a ++ b) off w = slice b (off - a.length) w := by
   simp only [slice]
-  rw [List.drop_append_eq_append_drop, List.drop_eq_nil_of_le h, List.nil_append]
+  rw [List.drop_append, List.drop_eq_nil_of_le h, List.nil_append]
 
 theorem slice_append_left (a b : Bits) (off w : Nat) (h : off + w ≤ a.length) :
     slice (a ++ b) off w = slice a off w := by
@@ -170,8 +169,8 @@ theorem getBit_append_right' (a b : Bits) (i : Nat) (h : a.length ≤ i) :
   rw [this, getBit_append_right]; simp
 
 theorem getBit_natToBits_one (v : Nat) (h : v < 2) : getBit (natToBits 1 v) 0 = (v == 1) := by
-  simp [natToBits]
-  omega
+  have : v = 0 ∨ v = 1 := by omega
+  rcases this with rfl | rfl <;> rfl
 
 /-- `bits[i]` as a one-bit field -/
 theorem getField_one (bs : Bits) (i : Nat) (h : i < bs.length) : getField bs i 1 = b2n (getBit bs i) := by
@@ -226,7 +225,8 @@ theorem chunks_append_exact (n : Nat) (a : List Bool) (b : List Bool) (hn : 0 < 
   have h1 : ¬ (n = 0 ∨ a ++ b = []) := by
     intro h; rcases h with h | h
     · omega
-    · have := congrArg List.length h; simp at this; omega
+    · have := congrArg List.length h
+      simp only [List.length_append, List.length_nil] at this; omega
   rw [dif_neg h1]
   congr 1
   · exact List.take_left' ha
@@ -300,34 +300,29 @@ theorem isBytes_bitsToBytes (n : Nat) (bs : Bits) (h : bs.length = 8 * n) : isBy
 
 /-! ## two's complement fields -/
 
+theorem two_pow_pred (w : Nat) (hw : 0 < w) : (2 : Nat) ^ w = 2 * 2 ^ (w - 1) := by
+  cases w with
+  | zero => omega
+  | succ w => simp [Nat.pow_succ, Nat.mul_comm]
+
 theorem fromSigned_toSigned (w u : Nat) (hw : 0 < w) (hu : u < 2 ^ w) : fromSigned w (toSigned w u) = u := by
   unfold fromSigned toSigned
-  have hp : (2 : Nat) ^ w = 2 * 2 ^ (w - 1) := by
-    cases w with
-    | zero => omega
-    | succ w => simp [Nat.pow_succ, Nat.mul_comm]
+  have hp := two_pow_pred w hw
   split
   · rw [Int.emod_eq_of_lt (by omega) (by omega)]; simp
-  · have : ((u : Int) - ((2 ^ w : Nat) : Int)) % ((2 ^ w : Nat) : Int) = (u : Int) := by
-      rw [Int.sub_emod, Int.emod_self, Int.sub_zero, Int.emod_emod_of_dvd _ (Int.dvd_refl _)]
-      exact Int.emod_eq_of_lt (by omega) (by omega)
-    rw [this]; simp
+  · rw [Int.sub_emod_right, Int.emod_eq_of_lt (by omega) (by omega)]; simp
 
-theorem toSigned_fromSigned (w : Nat) (n : Int) (hw : 0 < w) (h : signedInRange w n = true) :
+theorem toSigned_fromSigned (w : Nat) (n : Int) (hw : 0 < w) (h : signedInRange w n) :
     toSigned w (fromSigned w n) = n := by
-  simp only [signedInRange, Bool.and_eq_true, decide_eq_true_eq] at h
   obtain ⟨h1, h2⟩ := h
-  have hp : (2 : Nat) ^ w = 2 * 2 ^ (w - 1) := by
-    cases w with
-    | zero => omega
-    | succ w => simp [Nat.pow_succ, Nat.mul_comm]
+  have hp := two_pow_pred w hw
   unfold fromSigned toSigned
   by_cases hn : 0 ≤ n
   · rw [Int.emod_eq_of_lt hn (by omega)]
     have : n.toNat < 2 ^ (w - 1) := by omega
     rw [if_pos this]; omega
   · have hm : n % ((2 ^ w : Nat) : Int) = n + ((2 ^ w : Nat) : Int) := by
-      rw [← Int.add_emod_self]
+      rw [← Int.add_emod_right]
       exact Int.emod_eq_of_lt (by omega) (by omega)
     rw [hm]
     have : ¬ (n + ((2 ^ w : Nat) : Int)).toNat < 2 ^ (w - 1) := by omega
@@ -342,12 +337,9 @@ theorem fromSigned_lt (w : Nat) (n : Int) : fromSigned w n < 2 ^ w := by
   have h0 := Int.emod_nonneg n (Int.ne_of_gt hpos)
   omega
 
-theorem signedInRange_toSigned (w u : Nat) (hw : 0 < w) (hu : u < 2 ^ w) : signedInRange w (toSigned w u) = true := by
-  have hp : (2 : Nat) ^ w = 2 * 2 ^ (w - 1) := by
-    cases w with
-    | zero => omega
-    | succ w => simp [Nat.pow_succ, Nat.mul_comm]
-  simp only [signedInRange, toSigned, Bool.and_eq_true, decide_eq_true_eq]
+theorem signedInRange_toSigned (w u : Nat) (hw : 0 < w) (hu : u < 2 ^ w) : signedInRange w (toSigned w u) := by
+  have hp := two_pow_pred w hw
+  unfold signedInRange toSigned
   split <;> omega
 
 end Dmr
